@@ -50,17 +50,24 @@ pub struct Alpha {
     pub qlov: i128,
     pub qt1: i128,
     pub qt2: i128,
+    /// every amount (stored and requested) is multiplied by this: the same shapes with quantities beyond 32 / 63 / 64 bits
+    pub scale: i128,
 }
 
 pub fn alphas(tier: Tier) -> Vec<Alpha> {
     match tier {
         Tier::Quick => vec![
-            Alpha { name: "full-n2", lov: 3, t1: 2, t2: 1, n: 2, qlov: 4, qt1: 3, qt2: 2 },
-            Alpha { name: "reduced-n3", lov: 2, t1: 2, t2: 0, n: 3, qlov: 3, qt1: 3, qt2: 0 },
+            Alpha { name: "full-n2", lov: 3, t1: 2, t2: 1, n: 2, qlov: 4, qt1: 3, qt2: 2, scale: 1 },
+            Alpha { name: "reduced-n3", lov: 2, t1: 2, t2: 0, n: 3, qlov: 3, qt1: 3, qt2: 0, scale: 1 },
+            Alpha { name: "wide-2^62-n2", lov: 2, t1: 1, t2: 0, n: 2, qlov: 3, qt1: 2, qt2: 0, scale: 1 << 62 },
+            Alpha { name: "wide-2^32+1-n2", lov: 2, t1: 1, t2: 0, n: 2, qlov: 3, qt1: 2, qt2: 0, scale: (1 << 32) + 1 },
         ],
         Tier::Thorough => vec![
-            Alpha { name: "full-n3", lov: 3, t1: 2, t2: 1, n: 3, qlov: 4, qt1: 3, qt2: 2 },
-            Alpha { name: "reduced-n4", lov: 2, t1: 2, t2: 0, n: 4, qlov: 3, qt1: 3, qt2: 0 },
+            Alpha { name: "full-n3", lov: 3, t1: 2, t2: 1, n: 3, qlov: 4, qt1: 3, qt2: 2, scale: 1 },
+            Alpha { name: "reduced-n4", lov: 2, t1: 2, t2: 0, n: 4, qlov: 3, qt1: 3, qt2: 0, scale: 1 },
+            Alpha { name: "wide-2^62-n3", lov: 2, t1: 1, t2: 1, n: 3, qlov: 3, qt1: 2, qt2: 1, scale: 1 << 62 },
+            Alpha { name: "wide-2^32+1-n3", lov: 2, t1: 1, t2: 1, n: 3, qlov: 3, qt1: 2, qt2: 1, scale: (1 << 32) + 1 },
+            Alpha { name: "wide-2^64-n2", lov: 2, t1: 1, t2: 0, n: 2, qlov: 3, qt1: 2, qt2: 0, scale: 1 << 64 },
         ],
     }
 }
@@ -78,7 +85,7 @@ pub fn contents(a: &Alpha) -> Vec<Content> {
         for l in 0..=a.lov {
             for t1 in 0..=a.t1 {
                 for t2 in 0..=a.t2 {
-                    out.push(Content { addr, amt: [l, t1, t2] });
+                    out.push(Content { addr, amt: [l * a.scale, t1 * a.scale, t2 * a.scale] });
                 }
             }
         }
@@ -221,9 +228,9 @@ pub fn queries(a: &Alpha, n: usize, f: &mut dyn FnMut(&Query)) {
         ref_opts.push(vec![n - 1, usize::MAX]);
     }
     let mut mins: Vec<Option<[Option<i128>; 3]>> = vec![None];
-    let lopts: Vec<Option<i128>> = std::iter::once(None).chain((0..=a.qlov).map(Some)).collect();
-    let t1opts: Vec<Option<i128>> = std::iter::once(None).chain((1..=a.qt1).map(Some)).collect();
-    let t2opts: Vec<Option<i128>> = std::iter::once(None).chain((1..=a.qt2).map(Some)).collect();
+    let lopts: Vec<Option<i128>> = std::iter::once(None).chain((0..=a.qlov).map(|x| Some(x * a.scale))).collect();
+    let t1opts: Vec<Option<i128>> = std::iter::once(None).chain((1..=a.qt1).map(|x| Some(x * a.scale))).collect();
+    let t2opts: Vec<Option<i128>> = std::iter::once(None).chain((1..=a.qt2).map(|x| Some(x * a.scale))).collect();
     for l in &lopts {
         for t1 in &t1opts {
             for t2 in &t2opts {
@@ -559,13 +566,13 @@ impl Prop for C03 {
              x single/many x input/collateral) through tx3_resolver::inputs::resolve; alphabets: {:?}; every iteration order of the candidate set \
              is enumerated for stores with identical contents (thorough: for every store); window stores of 49/50/51 UTxOs. Non-trivial = the resolver \
              returned and the specification predicate was evaluated; distinct = distinct (alphabet, store multiset, query).",
-            alphas(tier).iter().map(|a| format!("{}: lov<={} t1<={} t2<={} n<={}", a.name, a.lov, a.t1, a.t2, a.n)).collect::<Vec<_>>()
+            alphas(tier).iter().map(|a| format!("{}: lov<={} t1<={} t2<={} n<={} x{}", a.name, a.lov, a.t1, a.t2, a.n, a.scale)).collect::<Vec<_>>()
         )
     }
 
     fn assumptions(&self) -> Vec<String> {
         vec![
-            "amounts and store sizes outside the alphabets are not covered; all amounts are non-negative".into(),
+            "amounts and store sizes outside the alphabets are not covered (wide amounts only as multiples of 2^32+1, 2^62, 2^64); all amounts are non-negative".into(),
             "queries with neither from, ref nor a positive token are expected to be refused (no completeness claim)".into(),
             "completeness is asserted only when the specification's candidate set has at most 50 members".into(),
             "the HashSet<UtxoRef> built inside SearchSpace::take is not observable; only the fetched candidate set's order is enumerated".into(),
